@@ -7,7 +7,7 @@ import InfluxQL.Lemmas.ScanNumber
 import InfluxQL.Lemmas.IntLit
 import InfluxQL.Lemmas.Digits
 import InfluxQL.Lemmas.TotalStmtHandlers
-import InfluxQL.Props.C06
+import InfluxQL.Lemmas.QuoteSpell
 import InfluxQL.Props.C08
 /-
 "One printed piece is consumed by one parser step."
